@@ -1,6 +1,5 @@
 (* C12 — base-class defaults, as inherited by (a) the synthetic subclass that only
-   defines one()/zero() and (b) SemiringSymbolic.  Everything in this file holds
-   for the code before and after the `is_one` repair. *)
+   defines one()/zero() and (b) SemiringSymbolic. *)
 From Coq Require Import Reals Lra ZArith Bool String List.
 From PL.C12 Require Import ModelPy ModelR GenSemirings ProofsBase.
 Local Open Scope R_scope.
@@ -36,4 +35,20 @@ Lemma sym_is_zero_zero : (z <- sym_zero Rops ;; sym_is_zero Rops z) = Ok true.
 Proof. reflexivity. Qed.
 
 Lemma sym_normalize_one a : (o <- sym_one Rops ;; sym_normalize Rops a o) = Ok a.
+Proof. reflexivity. Qed.
+
+(* is_one(one()) and normalize(a, one()) = a for classes that INHERIT Semiring.is_one
+   (false before the repair f43b2ec: is_one compared with the bound method `self.one`) *)
+Lemma generic_is_one_one g1 g0 : proper g1 ->
+  (o <- generic_one Rops g1 g0 ;; generic_is_one Rops g1 g0 o) = Ok true.
+Proof. intros. cbv [generic_one generic_is_one ret bind py_eqb]. rewrite fl_eqb_refl; auto. Qed.
+
+Lemma generic_normalize_one g1 g0 a : proper g1 ->
+  (o <- generic_one Rops g1 g0 ;; generic_normalize Rops g1 g0 a o) = Ok a.
+Proof.
+  intros. pose proof (generic_is_one_one g1 g0 H) as E.
+  cbv [generic_one ret bind] in *. rewrite generic_normalize_char. cbv [bind]. rewrite E. reflexivity.
+Qed.
+
+Lemma sym_is_one_one : (o <- sym_one Rops ;; sym_is_one Rops o) = Ok true.
 Proof. reflexivity. Qed.
